@@ -1,6 +1,6 @@
 """C17 -- parameter initialisation (structural clauses)."""
 from ..core import Ctx, Ob, PropSpec
-from ..rules import r1, r3, r4, r4lite
+from ..rules import extra2, r1, r3, r4, r4lite, r10
 
 
 def run(ctx: Ctx) -> list[Ob]:
@@ -11,6 +11,8 @@ def run(ctx: Ctx) -> list[Ob]:
     obs += [o for o in r3.r3d(ctx) if "TorchTensorParameter" in o.construct or "tensor" in o.instance.lower()]
     obs += r4lite.init_application(ctx)
     obs += r4.initializer_contracts(ctx)
+    obs += r10.r10j(ctx)
+    obs.append(extra2.must_call_on_all_paths(ctx, 'cirkit.backend.torch.parameters.nodes.TorchTensorParameter.reset_parameters', '_initializer_', 'R4i', 'reset-initialises', 'reset_parameters must re-draw / re-copy every tensor from its initialiser, learnable or not: constants are copied back and frozen random tensors re-drawn on every reset'))
     return obs
 
 
@@ -25,6 +27,8 @@ SPEC = PropSpec(
         "(rank clause): because a compiled initialiser shifts non-negative axes by one (it expects the leading fold axis), every "
         "application site of an initialiser in the torch backend hands it a tensor that still has that axis (the whole tensor or a "
         "slice t[i:i+1], never the integer index t[i]). R4i (symbolic shape + layout interpretation of dirichlet_): for destination tensors of rank 2..4 (fold axis included) and every dim, the samples are written with exactly the destination's shape for all sizes and the simplex axis -- the one they sum to one along -- sits at dim (moving it with a transposition instead of a move also displaces the last axis: a rank-3 parameter with axis 0 and two different other sizes cannot be initialised)."
+        " R4i list alpha: dirichlet_ is also interpreted with a per-category list of concentrations of symbolic length (the guard ties it to shape[dim]): the concentrations must end up along dim, not broadcast along the last axis. R4i reset: every normal exit of TorchTensorParameter.reset_parameters passes through the initialiser call (must-pass-through on the CFG) -- also for tensors that do not require gradients."
+        " R10j: TorchCircuit.reset_parameters visits, for every layer, its params and (recursively) the layers in its sub_modules -- the tensors of a layer wrapped by an evidence layer are allocated and initialised with the rest."
     ),
     not_decided=(
         "statistical moments of the samples."
